@@ -9,7 +9,8 @@ from harness import core, fr
 from harness.core import gq, gbool, gstr, glist, gnat
 from harness.props import c01
 
-HEADER = """From FrameModel Require Import Num.QcTac Geometry.Rect Cases.Cmp Alloc.Alloc Alloc.Initial Cases.CmpC03.
+HEADER = """From FrameModel Require Import Num.QcTac Geometry.Rect Cases.Cmp Alloc.Alloc Alloc.Initial Cases.CmpC03
+  Alloc.InitialHist Cases.CmpC03Hist.
 Open Scope Qc_scope."""
 
 ASSUMPTIONS = [
@@ -33,6 +34,14 @@ ASSUMPTIONS = [
     "'area of its shape lying on refinable or fixed cells' is read respectively: refinable cells for soft and hard modules, "
     "its own (fixed) cells for a fixed module - the part of a soft module lying on a fixed module's cell is not allocated to it",
     "the order of the cells and of the entries of a map is compared with the model (the code's order); the oracle does not demand it",
+    "object histories (cases with 'ops', exact stream, die form): the real Netlist / Die pair goes through reads (bounding_box, "
+    "area_overlap, find_location), Module.create_stog, allocations, in-place and setter moves / resizes of the rectangles of the "
+    "movable modules, module-centre writes and Module.recenter_rectangles; after EVERY operation every module is read back through "
+    "the public attributes and must equal the state of the model (Alloc/InitialHist.v; after Module.create_stog up to order and "
+    "roles of the rectangles; the identity 'rectangles[0].center is module.center' is read back and followed by the model, not "
+    "demanded); every allocation must agree with the model on the values read back just before it and is judged by "
+    "the oracle on those values.  The die's cells are checked to be unchanged by every operation; fixed modules are never moved; "
+    "recenter_rectangles is only used where the centroid is a dyadic rational (so that its quotient is exact in binary64)",
 ]
 
 TAGS = ["#", "#", "dsp", "BRAM", "r_1"]
@@ -288,6 +297,136 @@ def netlist_tree(case):
     return {"Modules": mods, "Nets": []}
 
 
+# --------------------------------------------------------------------------
+# extra stream: input forms, names, orders, sizes, exact ties
+# --------------------------------------------------------------------------
+TRICKY_NAMES = ["H1", "H1_0", "H1_io", "H1_1", "H10", "M", "M_", "M1", "M10", "_", "_0", "__", "yes", "no", "null", "on",
+                "off", "true", "y", "n", "x", "A_", "a", "A"]
+
+
+def rename(case, rng):
+    mods = case["modules"]
+    new = rng.sample(TRICKY_NAMES, len(mods)) if len(mods) <= len(TRICKY_NAMES) else None
+    if new is None:
+        return case
+    table = {m["name"]: n for m, n in zip(mods, new)}
+    case = dict(case, modules=[dict(m, name=table[m["name"]]) for m in mods])
+    if "ops" in case:
+        case["ops"] = [[op[0], table[op[1]]] + list(op[2:]) if op[0] not in ("probe", "alloc") else op for op in case["ops"]]
+    return case
+
+
+def gen_tie(rng):
+    """direct form: a fixed module whose share of a cell is EXACTLY the tolerance 1e-6 of _detect_fixed_rectangles
+    (neither 'below' nor 'within the tolerance of 1': the assertion fails), just below it, and just above"""
+    e = F(FEPS)
+    k = rng.choice([10, 20, 30])
+    cw = F(1, 2 ** k)                                   # cell [0, cw] x [0, h]
+    h = rng.choice([F(1), F(2), F(1, 2)])
+    how = rng.choice(["exact", "below", "above"])
+    t = e * cw * {"exact": 1, "below": F(2 ** 20 - 1, 2 ** 20), "above": F(2 ** 20 + 1, 2 ** 20)}[how]
+    cells = [{"cx": cw / 2, "cy": h / 2, "w": cw, "h": h, "fixed": False, "hard": False, "region": "_", "loc": "NOPOLY"},
+             {"cx": cw + 1, "cy": h / 2, "w": F(2), "h": h, "fixed": False, "hard": False, "region": "_", "loc": "NOPOLY"}]
+    # the fixed module: [-t, t] x [0, h] (centre 0: representable), sharing t * h with the first cell
+    mods = [{"name": "F0", "kind": "fixed", "rects": [[F(0), h / 2, 2 * t, h]]},
+            {"name": "S1", "kind": "soft", "area": F(1), "center": [cw + 1, h / 2], "rects": []}]
+    return {"stream": "exact", "form": "direct", "cells": cells, "modules": mods, "inc0": False,
+            "features": ["direct", "tie-" + how], "regions": [], "refine": None}
+
+
+def gen_extra(rng):
+    kind = rng.choice(["inform", "inform", "names", "order", "size-cells", "size-cells", "size-modules", "tie"])
+    if kind == "tie":
+        return gen_tie(rng)
+    if kind == "size-cells":
+        q = F(1, 4)
+        if rng.random() < 0.5:
+            nr, nc = rng.choice([(3, 3), (2, 5), (5, 2), (4, 4), (4, 8), (8, 8), (10, 10), (1, 16), (3, 11)])
+            W, H = nc * F(rng.randrange(1, 5), 4), nr * F(rng.randrange(1, 5), 4)
+            refine = ["grid", nr, nc]
+        else:
+            W, H = F(rng.randrange(8, 33), 4), F(rng.randrange(8, 33), 4)
+            refine = ["split", rng.choice([F(3, 2), F(2), F(3)]), rng.choice([9, 10, 15, 16, 17, 32, 33, 64, 100])]
+        feats = ["size-cells"]
+        mods = gen_modules(rng, W, H, q, feats, SIDES, None)
+        if not mods:
+            mods = [{"name": "S0", "kind": "soft", "area": F(4), "center": [W / 2, H / 2], "rects": []}]
+        return {"stream": "exact", "form": "die", "W": W, "H": H, "regions": [], "modules": mods, "refine": refine,
+                "inc0": rng.random() < 0.3, "features": sorted(set(feats))}
+    case = gen_case(rng, "exact")
+    while case.get("form") == "direct":
+        case = gen_case(rng, "exact")
+    feats = set(case["features"]) | {kind}
+    if kind == "inform":
+        case["inform"] = {"net": rng.choice(["text", "file", "dict"]), "die": rng.choice(["text", "file", "WxH", "dict"]),
+                          "ints": rng.random() < 0.5}
+        if rng.random() < 0.4:
+            case = rename(case, rng)
+    elif kind == "names":
+        case = rename(case, rng)
+    elif kind == "order":
+        regs = list(case["regions"])
+        how = rng.choice(["reversed", "shuffled", "top-down"])
+        if how == "reversed":
+            regs.reverse()
+        elif how == "shuffled":
+            rng.shuffle(regs)
+        else:
+            regs.sort(key=lambda r: (-r[1], -r[0]))
+        mods = []
+        for m in case["modules"][::-1]:
+            rs = list(m["rects"])
+            rng.shuffle(rs)
+            mods.append(dict(m, rects=rs))
+        case = dict(case, regions=regs, modules=mods)
+    elif kind == "size-modules":
+        W, H = case["W"], case["H"]
+        mods = [m for m in case["modules"] if m["kind"] == "fixed"]
+        pool = []
+        while len(pool) < rng.choice([9, 10, 11, 16]):
+            pool += gen_modules(rng, W, H, F(1, 4), [], SIDES, None)
+        for i, m in enumerate(pool):
+            m["name"] = f"{m['name'][0]}{i}"              # S1 ... S10, S11: names that are prefixes of each other
+        case = dict(case, modules=mods + pool)
+    case["features"] = sorted(feats)
+    return case
+
+
+def as_input(tree, how, ints):
+    """hand the tree over in another of the forms Netlist / Die accept: YAML text, a file name, (die only) '<W>x<H>'"""
+    import io
+    import os
+    import tempfile
+    from ruamel.yaml import YAML
+
+    def conv(x):
+        if isinstance(x, dict):
+            return {k: conv(v) for k, v in x.items()}
+        if isinstance(x, list):
+            return [conv(v) for v in x]
+        if ints and isinstance(x, float) and x == int(x):
+            return int(x)
+        return x
+    tree = conv(tree)
+    if how == "dict":
+        return tree, None
+    if how == "WxH":
+        if "regions" in tree:
+            return tree, None
+        return f"{tree['width']!r}x{tree['height']!r}", None
+    y = YAML(typ="safe")
+    y.default_flow_style = None
+    buf = io.StringIO()
+    y.dump(tree, buf)
+    text = buf.getvalue()
+    if how == "text" and ": " in text:
+        return text, None
+    fd, path = tempfile.mkstemp(suffix=".yaml", prefix="c03_")
+    with os.fdopen(fd, "w") as f:
+        f.write(text)
+    return path, path
+
+
 def classify(e):
     msg = str(e)
     if msg == "RCells":
@@ -309,14 +448,20 @@ def classify(e):
 
 
 def run_impl(case):
+    if "ops" in case:
+        return run_hist_impl(case)
     from frame.geometry.geometry import Rectangle
     from frame.die.die import Die
     from frame.netlist.netlist import Netlist
     from frame.allocation.allocation import Allocation, create_initial_allocation
     Rectangle.undefine_epsilon()
+    tmp = []
+    inform = case.get("inform", {})
     try:
         try:
-            netlist = Netlist(netlist_tree(case))
+            net_in, p = as_input(netlist_tree(case), inform.get("net", "dict"), inform.get("ints", False))
+            tmp.append(p)
+            netlist = Netlist(net_in)
             if case.get("form") == "direct":
                 cells = [fr.mk_rect(d) for d in case["cells"]]
                 refinable, fixed = cells, []
@@ -324,7 +469,9 @@ def run_impl(case):
                 tree = {"width": float(case["W"]), "height": float(case["H"])}
                 if case["regions"]:
                     tree["regions"] = fl(case["regions"])
-                die = Die(tree, netlist)
+                die_in, p = as_input(tree, inform.get("die", "dict"), inform.get("ints", False))
+                tmp.append(p)
+                die = Die(die_in, netlist)
                 rf = case["refine"]
                 if rf and rf[0] == "grid":
                     die.initial_grid(rf[1], rf[2])
@@ -359,6 +506,9 @@ def run_impl(case):
         return obs
     finally:
         Rectangle.undefine_epsilon()
+        for p in tmp:
+            if p:
+                __import__("os").unlink(p)
 
 
 # --------------------------------------------------------------------------
@@ -387,6 +537,8 @@ def is_pow2(x):
 
 
 def to_coq(case, obs):
+    if "ops" in case:
+        return hist_to_coq(case, obs)
     if obs["setup"] != "ok" or case.get("stream") == "decimal":
         return "true"                     # decimal stream: oracle only (the theorems speak about exact arithmetic)
     table = []
@@ -448,7 +600,7 @@ def shape_of(m, cm=None):
     return [(cx - s / 2, cy - s / 2, cx + s / 2, cy + s / 2)]
 
 
-def oracle(case, obs):
+def oracle_one(case, obs):
     if obs["setup"] != "ok":
         return None
     mods = obs["modules"]
@@ -552,6 +704,396 @@ def oracle(case, obs):
     return None
 
 
+
+
+# --------------------------------------------------------------------------
+# object histories: the netlist / die objects are exercised and mutated before (and between) allocations
+# --------------------------------------------------------------------------
+def _mods_obs(netlist):
+    return [{"name": m.name, "fixed": bool(m.is_fixed), "hard": bool(m.is_hard), "terminal": bool(m.is_terminal),
+             "area": m.area(), "center": None if m.center is None else [m.center.x, m.center.y],
+             "rects": [fr.rect_obs(r) for r in m.rectangles],
+             "shared": bool(m.num_rectangles > 0 and m.center is not None and m.rectangles[0].center is m.center)}
+            for m in netlist.modules]
+
+
+def _alloc_obs(die, inc0):
+    from frame.allocation.allocation import create_initial_allocation
+    o = {}
+    try:
+        a = create_initial_allocation(die, bool(inc0))
+        o["v"] = "accept"
+        o["cells"] = [{"rect": fr.rect_obs(x.rect), "alloc": [[m, v] for m, v in x.alloc.items()],
+                       "depth": x.depth} for x in a.allocations]
+    except (AssertionError, ZeroDivisionError) as e:
+        o["v"] = "reject"
+        o["cls"] = classify(e)
+        o["msg"] = f"{type(e).__name__}: {str(e)[:160]}"
+    return o
+
+
+def run_hist_impl(case):
+    from frame.geometry.geometry import Rectangle, Point, Shape
+    from frame.die.die import Die
+    from frame.netlist.netlist import Netlist
+    Rectangle.undefine_epsilon()
+    try:
+        try:
+            netlist = Netlist(netlist_tree(case))
+            tree = {"width": float(case["W"]), "height": float(case["H"])}
+            if case["regions"]:
+                tree["regions"] = fl(case["regions"])
+            die = Die(tree, netlist)
+            rf = case["refine"]
+            if rf and rf[0] == "grid":
+                die.initial_grid(rf[1], rf[2])
+            elif rf and rf[0] == "split":
+                die.split_refinable_regions(float(rf[1]), rf[2])
+        except (AssertionError, IndexError) as e:
+            return {"setup": "rejected", "msg": f"{type(e).__name__}: {str(e)[:160]}"}
+
+        def cells():
+            refinable, fixed = die.floorplanning_rectangles()
+            return [fr.rect_obs(r) for r in refinable], [fr.rect_obs(r) for r in fixed]
+
+        refinable, fixed = cells()
+        obs = {"setup": "ok", "refinable": refinable, "fixed": fixed, "modules": _mods_obs(netlist),
+               "aeps": Rectangle.area_epsilon(), "eps": Rectangle.distance_epsilon(), "steps": []}
+        for op in case["ops"]:
+            rec = {"raised": False}
+            try:
+                if op[0] == "probe":
+                    rs = [r for m in netlist.modules for r in m.rectangles]
+                    cs = [r for l in die.floorplanning_rectangles() for r in l]
+                    for r in rs:
+                        _ = r.bounding_box
+                        for c in cs:
+                            c.area_overlap(r)
+                    for m in netlist.modules:
+                        for a in m.rectangles:
+                            for b in m.rectangles:
+                                a.find_location(b)
+                elif op[0] == "alloc":
+                    rec["pre"] = obs["steps"][-1]["post"] if obs["steps"] else obs["modules"]
+                    rec.update(_alloc_obs(die, op[1]))
+                    rec["raised"] = rec["v"] != "accept"
+                else:
+                    m = netlist.get_module(op[1])
+                    if op[0] == "move_rect":
+                        _, _, ri, mech, x, y = op
+                        r = m.rectangles[ri]
+                        if mech == "attr":
+                            r.center.x = float(x)
+                            r.center.y = float(y)
+                        elif mech == "iadd":
+                            r.center.x += float(x) - r.center.x
+                            r.center.y += float(y) - r.center.y
+                        else:
+                            r.center = Point(float(x), float(y))
+                    elif op[0] == "resize_rect":
+                        _, _, ri, mech, w, h = op
+                        r = m.rectangles[ri]
+                        if mech == "attr":
+                            r.shape.w = float(w)
+                            r.shape.h = float(h)
+                        else:
+                            r.shape = Shape(float(w), float(h))
+                    elif op[0] == "set_center":
+                        _, _, mech, x, y = op
+                        if mech == "attr":
+                            m.center.x = float(x)
+                            m.center.y = float(y)
+                        else:
+                            m.center = Point(float(x), float(y))
+                    elif op[0] == "recenter":
+                        m.recenter_rectangles()
+                    elif op[0] == "create_stog":
+                        m.create_stog()
+                    else:
+                        raise ValueError(op[0])
+            except (AssertionError, ZeroDivisionError, AttributeError, IndexError) as e:
+                rec["raised"] = True
+                rec["msg"] = f"{type(e).__name__}: {str(e)[:120]}"
+            rec["post"] = _mods_obs(netlist)
+            rec["cells_same"] = cells() == (refinable, fixed)
+            obs["steps"].append(rec)
+        return obs
+    finally:
+        Rectangle.undefine_epsilon()
+
+
+def ghmod(m):
+    return f"(mkH {gmod(m)} {gbool(m['shared'])})"
+
+
+def gnop(op, names):
+    mech = lambda s: "WSetter" if s == "setter" else "WInPlace"
+    if op[0] == "probe":
+        return "NProbe"
+    if op[0] == "alloc":
+        return f"NAlloc {gbool(op[1])}"
+    mi = gnat(names.index(op[1]))
+    if op[0] == "move_rect":
+        return f"NMoveRect {mech(op[3])} {mi} {gnat(op[2])} {gq(op[4])} {gq(op[5])}"
+    if op[0] == "resize_rect":
+        return f"NResizeRect {mech(op[3])} {mi} {gnat(op[2])} {gq(op[4])} {gq(op[5])}"
+    if op[0] == "set_center":
+        return f"NSetCenter {mech(op[2])} {mi} {gq(op[3])} {gq(op[4])}"
+    if op[0] == "recenter":
+        return f"NRecenter {mi}"
+    if op[0] == "create_stog":
+        return f"NCreateStog {mi}"
+    raise ValueError(op[0])
+
+
+def hist_to_coq(case, obs):
+    if obs["setup"] != "ok":
+        return "true"
+    names = [m["name"] for m in obs["modules"]]
+    table = {}
+    for st in [obs["modules"]] + [r["post"] for r in obs["steps"]]:
+        for m in st:
+            if not m["rects"] or m["shared"]:
+                sq = qsqrt(m["area"])
+                if sq is None:
+                    raise ValueError("area of a module without rectangles is not a perfect square")
+                table[core.frac(m["area"])] = sq
+    tab = glist([f"({gq(a)}, {gq(v)})" for a, v in sorted(table.items())])
+    steps = []
+    for op, rec in zip(case["ops"], obs["steps"]):
+        if not rec["cells_same"]:
+            raise ValueError("an operation changed the cells of the die")
+        o = "NONone"
+        if op[0] == "alloc":
+            if rec["v"] == "reject":
+                if rec["cls"] is None:
+                    raise ValueError("unclassified exception " + rec["msg"])
+                o = f"(NOReject {rec['cls']})"
+            else:
+                nmax = max([len(m["rects"]) for m in rec["pre"]] + [1])
+                ks = ["0%Z" if is_pow2(core.frac(c["rect"]["w"]) * core.frac(c["rect"]["h"])) else f"{nmax + 2}%Z"
+                      for c in rec["cells"]]
+                cells = glist([f"(mkCell {fr.grect(c['rect'])} "
+                               f"{glist([f'({gstr(m)}, {gq(v)})' for m, v in c['alloc']])} {gnat(c['depth'])})"
+                               for c in rec["cells"]])
+                o = f"(NOAccept {glist(ks)} {cells})"
+        steps.append(f"({gnop(op, names)}, {gbool(rec['raised'])}, {o}, {glist([ghmod(m) for m in rec['post']])})")
+    return (f"nhist_check (table_sqrt {tab}) {gq(FEPS)} {gq(CEPS)} {gq(obs['aeps'])} {gq(obs['eps'])} {gq(obs['aeps'])} "
+            f"{glist([fr.grect(r) for r in obs['refinable']])} {glist([fr.grect(r) for r in obs['fixed']])} "
+            f"{glist([ghmod(m) for m in obs['modules']])} {glist(steps)}")
+
+
+def hist_oracle(case, obs):
+    """every allocation of the history judged on its own, on the modules as read back just before it"""
+    if obs["setup"] != "ok":
+        return None
+    for k, (op, rec) in enumerate(zip(case["ops"], obs["steps"])):
+        if op[0] != "alloc":
+            continue
+        sub_case = dict(case, modules=[], inc0=op[1])
+        sub_obs = {"setup": "ok", "refinable": obs["refinable"], "fixed": obs["fixed"], "modules": rec["pre"],
+                   "v": rec["v"], "cells": rec.get("cells"), "msg": rec.get("msg", "")}
+        why = oracle_one(sub_case, sub_obs)
+        if why:
+            return f"{why} [operation {k} of the history: {' '.join(map(str, op))}]"
+    return None
+
+
+def hist_shrink(case):
+    ops = case["ops"]
+    for k in range(len(ops) - 1):
+        yield dict(case, ops=ops[:k] + ops[k + 1:])
+    used = {op[1] for op in ops if op[0] not in ("probe", "alloc")}
+    mods = case["modules"]
+    for i in range(len(mods)):
+        if len(mods) > 1 and mods[i]["name"] not in used and mods[i]["kind"] != "fixed":
+            yield dict(case, modules=mods[:i] + mods[i + 1:])
+    if case["refine"]:
+        yield dict(case, refine=None)
+
+
+def centroid_dyadic(boxes):
+    a = sum(((b[2] - b[0]) * (b[3] - b[1]) for b in boxes), F(0))
+    if a == 0:
+        return None
+    x = sum(((b[0] + b[2]) / 2 * (b[2] - b[0]) * (b[3] - b[1]) for b in boxes), F(0)) / a
+    y = sum(((b[1] + b[3]) / 2 * (b[2] - b[0]) * (b[3] - b[1]) for b in boxes), F(0)) / a
+    ok = all(v.denominator & (v.denominator - 1) == 0 and v.denominator <= 2 ** 20 for v in (x, y))
+    return (x, y) if ok else None
+
+
+def gen_hist(rng):
+    """a die-form exact case whose netlist is exercised and mutated through the public API before it is allocated"""
+    template = rng.choice(["stale-box", "stale-box", "alloc-move-alloc", "alloc-move-alloc", "recenter", "square-alias",
+                           "alloc-twice", "resize", "stog", "random", "random"])
+    for _ in range(200):
+        case = gen_case(rng, "exact")
+        movable = [m for m in case["modules"] if m["kind"] != "fixed"]
+        if not movable or "no-centre" in case["features"] or "own-overlap" in case["features"]:
+            continue
+        boxes = lambda m: [[r[0] - r[2] / 2, r[1] - r[3] / 2, r[0] + r[2] / 2, r[1] + r[3] / 2] for r in m["rects"]]
+        if template == "recenter" and not any(m["kind"] == "hard" and centroid_dyadic(boxes(m)) for m in movable):
+            continue
+        if template == "square-alias" and not any(not m["rects"] for m in movable):
+            continue
+        if template == "stog" and not any(len(m["rects"]) > 1 for m in movable):
+            continue
+        if template == "resize" and not any(m["rects"] for m in movable):
+            continue
+        break
+    W, H = case["W"], case["H"]
+    q = F(1, 4)
+    ops = []
+    # the generator's own idea of where things are (boxes per module), to keep a module's rectangles disjoint
+    cur = {m["name"]: [[r[0] - r[2] / 2, r[1] - r[3] / 2, r[0] + r[2] / 2, r[1] + r[3] / 2] for r in m["rects"]]
+           for m in case["modules"]}
+    centre = {m["name"]: (list(m["center"]) if m.get("center") is not None else None) for m in case["modules"]}
+    squared = set()          # soft modules that got their square from an allocation
+    with_rects = [m for m in movable if m["rects"]]
+    squares = [m for m in movable if not m["rects"]]
+
+    def mech():
+        return rng.choice(["attr", "iadd", "setter"])
+
+    def shift(m, dx, dy, one=None):
+        """translate the module (rectangle by rectangle), or one rectangle if the result stays disjoint"""
+        bs = cur[m["name"]]
+        idx = range(len(bs)) if one is None else [one]
+        for i in idx:
+            b = bs[i]
+            nb = [b[0] + dx, b[1] + dy, b[2] + dx, b[3] + dy]
+            if one is not None and any(box_ov(nb, o) > 0 for j, o in enumerate(bs) if j != i):
+                return False
+            bs[i] = nb
+            ops.append(["move_rect", m["name"], i, mech(), (nb[0] + nb[2]) / 2, (nb[1] + nb[3]) / 2])
+        return True
+
+    def delta():
+        dx, dy = F(rng.randrange(-12, 13), 4), F(rng.randrange(-12, 13), 4)
+        if rng.random() < 0.25:                     # an increment of exactly 0 in one axis only
+            if rng.random() < 0.5:
+                dx = F(0)
+            else:
+                dy = F(0)
+        return dx, dy
+
+    def alloc(inc0=None):
+        ops.append(["alloc", case["inc0"] if inc0 is None else inc0])
+        for m in squares:
+            if m["name"] not in squared and centre[m["name"]] is not None:
+                squared.add(m["name"])
+
+    def move_some():
+        if with_rects and (not squares or rng.random() < 0.7):
+            m = rng.choice(with_rects)
+            dx, dy = delta()
+            if len(cur[m["name"]]) > 1 and rng.random() < 0.3:
+                if not shift(m, dx, dy, one=rng.randrange(len(cur[m["name"]]))):
+                    shift(m, dx, dy)
+            else:
+                shift(m, dx, dy)
+        elif squares:
+            m = rng.choice(squares)
+            c = centre[m["name"]]
+            if c is None:
+                return
+            dx, dy = delta()
+            c[0], c[1] = max(F(0), c[0] + dx), max(F(0), c[1] + dy)
+            if m["name"] in squared and rng.random() < 0.5:
+                # the square itself, through its own centre
+                ops.append(["move_rect", m["name"], 0, mech(), c[0], c[1]])
+            else:
+                ops.append(["set_center", m["name"], rng.choice(["attr", "setter"]), c[0], c[1]])
+
+    if template == "stale-box":
+        ops.append(["probe"])
+        move_some()
+        if rng.random() < 0.3:
+            ops.append(["probe"])
+            move_some()
+    elif template == "alloc-move-alloc":
+        alloc(rng.random() < 0.3)
+        move_some()
+        if rng.random() < 0.4:
+            alloc(rng.random() < 0.3)
+            move_some()
+    elif template == "recenter":
+        hard = [m for m in with_rects if m["kind"] == "hard" and centroid_dyadic(cur[m["name"]])]
+        ops.append(["probe"] if rng.random() < 0.5 else ["alloc", False])
+        if ops[-1][0] == "alloc":
+            ops.pop()
+            alloc(False)
+        if hard:
+            m = rng.choice(hard)
+            cx, cy = centroid_dyadic(cur[m["name"]])
+            dx, dy = delta()
+            ops.append(["set_center", m["name"], rng.choice(["attr", "setter"]), cx + dx, cy + dy])
+            ops.append(["recenter", m["name"]])
+            cur[m["name"]] = [[b[0] + dx, b[1] + dy, b[2] + dx, b[3] + dy] for b in cur[m["name"]]]
+        else:
+            move_some()
+        if squares and rng.random() < 0.3:
+            ops.append(["recenter", rng.choice(squares)["name"]])      # asserts: not a hard module
+    elif template == "square-alias":
+        alloc(rng.random() < 0.3)
+        for _ in range(rng.choice([1, 2])):
+            move_some()
+        if squares and rng.random() < 0.5:
+            m = rng.choice(squares)
+            if m["name"] in squared:
+                ops.append(["resize_rect", m["name"], 0, rng.choice(["attr", "setter"]), F(1, 2), F(2)])
+    elif template == "alloc-twice":
+        alloc(rng.random() < 0.5)
+        if rng.random() < 0.3:
+            ops.append(["probe"])
+    elif template == "resize":
+        ops.append(["probe"])
+        if with_rects:
+            m = rng.choice(with_rects)
+            i = rng.randrange(len(cur[m["name"]]))
+            b = cur[m["name"]][i]
+            w, h = (b[2] - b[0]) / rng.choice([1, 2, 2]), (b[3] - b[1]) / rng.choice([1, 2])
+            c = ((b[0] + b[2]) / 2, (b[1] + b[3]) / 2)
+            cur[m["name"]][i] = [c[0] - w / 2, c[1] - h / 2, c[0] + w / 2, c[1] + h / 2]
+            ops.append(["resize_rect", m["name"], i, rng.choice(["attr", "setter"]), w, h])
+        else:
+            move_some()
+    elif template == "stog":
+        multi = [m for m in with_rects if len(m["rects"]) > 1]
+        if multi:
+            m = rng.choice(multi)
+            dx, dy = delta()
+            shift(m, dx, dy, one=rng.randrange(len(cur[m["name"]]))) or shift(m, dx, dy)
+            ops.append(["create_stog", m["name"]])
+            if rng.random() < 0.5:
+                shift(m, -dx, -dy)
+                ops.append(["create_stog", m["name"]])
+        else:
+            move_some()
+            ops.append(["create_stog", rng.choice(movable)["name"]])
+    else:
+        for _ in range(rng.randrange(2, 7)):
+            what = rng.choices(["probe", "alloc", "move", "stog"], [2, 2, 5, 1])[0]
+            if what == "probe":
+                ops.append(["probe"])
+            elif what == "alloc":
+                alloc(rng.random() < 0.3)
+            elif what == "move":
+                move_some()
+            else:
+                ops.append(["create_stog", rng.choice(movable)["name"]])
+    alloc()
+    case = dict(case, ops=ops, template=template)
+    case["features"] = sorted(set(case["features"]) | {"history"})
+    return case
+
+
+def oracle(case, obs):
+    if "ops" in case:
+        return hist_oracle(case, obs)
+    return oracle_one(case, obs)
+
+
 def failure_key(case, why):
     why = why or ""
     if "valid die/netlist pair was rejected" in why:
@@ -574,6 +1116,9 @@ def failure_key(case, why):
 
 
 def shrink(case):
+    if "ops" in case:
+        yield from hist_shrink(case)
+        return
     mods = case["modules"]
     if case.get("form") == "direct":
         cs = case["cells"]
@@ -614,14 +1159,36 @@ def run(ctx, out, replay=None):
                 "touching no cell; soft with 1-3 rectangles; hard with 1-3 rectangles) plus the fixed modules, in random order, "
                 "overlapping each other, blockages and fixed cells; with and without include_area_zero; a few inputs outside "
                 "the property (own rectangles overlapping, missing centre) for the reject clauses of the model; non-trivial = "
-                "two or more modules, a region, or a refined die; distinct by canonical hash")
+                "two or more modules, a region, or a refined die; distinct by canonical hash.  Extra stream: the netlist / die handed "
+                "over as YAML text, as a file name, the die as '<W>x<H>', integral numbers as ints; module names that are prefixes "
+                "of each other or YAML-special (H1 / H1_0 / H1_io / M / M_ / yes / null / on ...), S1 .. S16; regions reversed / "
+                "shuffled / top-down, modules reversed, rectangles of a module shuffled; dies gridded into 9 .. 100 cells or split "
+                "into 9 .. 100 regions; 9 - 16 movable modules; a fixed module whose share of a cell is exactly the tolerance "
+                "1e-6, just below and just above it.  Object histories: such a die-form "
+                "exact case with at least one movable module, whose Netlist / Die objects go through 2-12 operations before the "
+                "final allocation - templates: read the boxes then move a module in place (stale-box), allocate / move / "
+                "allocate, set the module centre and recenter_rectangles, allocate then move the centre of a module that was "
+                "given a square (in place: the square follows; setter: it does not) or the square itself, allocate twice, resize "
+                "in place, move one rectangle and create_stog, random mixes; moves by attribute assignment, += and setters")
     cases = []
     if replay and "case" in replay:
         cases.append(fr.unjson(replay["case"]))
     cases += fr.load_corpus("C03")
     while len(cases) < n:
         cases.append(gen_case(ctx.rng))
+    xrng = __import__("random").Random(f"C03-extra-{ctx.seed}")
+    for _ in range(250 if ctx.quick() else 2500):
+        cases.append(gen_extra(xrng))
+    nh = 700 if ctx.quick() else 6000
+    hrng = __import__("random").Random(f"C03-hist-{ctx.seed}")
+    for _ in range(nh):
+        cases.append(gen_hist(hrng))
+    out.extra["history_cases"] = nh
     for c in cases:
+        if "ops" in c:
+            out.count("history:" + c.get("template", "?"))
+            for op in c["ops"]:
+                out.count("op:" + op[0])
         for f in c.get("features", []):
             out.count("has:" + f)
         out.count("refine:" + (c["refine"][0] if c["refine"] else "none"))
@@ -633,6 +1200,12 @@ def run(ctx, out, replay=None):
 
     def run_impl_counted(case):
         obs = run_impl(case)
+        if obs["setup"] == "ok" and "ops" in case:
+            for rec in obs["steps"]:
+                if "v" in rec:
+                    k = "history:" + (rec["v"] if rec["v"] == "accept" else "reject:" + str(rec["cls"]))
+                    verdicts[k] = verdicts.get(k, 0) + 1
+            return obs
         k = obs["setup"] if obs["setup"] != "ok" else (obs["v"] if obs["v"] == "accept" else "reject:" + str(obs["cls"]))
         verdicts[k] = verdicts.get(k, 0) + 1
         return obs
